@@ -35,11 +35,12 @@ def machine_data(m):
 # R4: path enumeration (Poly weights of degree >= 1 on every arc)
 
 
-def paths(data, fst=False, maxlen=60):
+def paths(data, fst=False, maxlen=60, zero=None):
     """{label: Poly}; label = string (tuple) or (input tuple, output tuple), epsilons erased."""
     start, stop, arcs = data
     out = {}
     by = {}
+    ZERO = Poly.zero if zero is None else zero
     for i, a, j, w in arcs:
         by.setdefault(i, []).append((a, j, w))
 
@@ -49,11 +50,11 @@ def paths(data, fst=False, maxlen=60):
         f = stop.get(q)
         if f is not None:
             ww = w * f
-            if ww != Poly.zero:
+            if ww != ZERO:
                 out[lab] = out[lab] + ww if lab in out else ww
         for a, j, aw in by.get(q, ()):
             w2 = w * aw
-            if w2 == Poly.zero:
+            if w2 == ZERO:
                 continue
             if fst:
                 l2 = (lab[0] + ((a[0],) if a[0] != EPS else ()), lab[1] + ((a[1],) if a[1] != EPS else ()))
